@@ -18,7 +18,13 @@ Section Sound.
   Hypothesis deg_zero : deg zero = -1.
   Hypothesis deg_mul_small : forall c x, deg (mul c x) < deg x -> mul c x = zero.
 
-  Definition GOps : pops T := mk_pops T zero one deg div (fun r a b => sub r (mul a b)).
+  (* ratreconcheck: an arbitrary gcd-degree function and test "leadcoef is one"; dividing by the leading
+     coefficient of D is multiplication by some element unit_of D, invertible when D <> 0, that keeps degrees *)
+  Variable gcddeg : T -> T -> Z.
+  Variable leadone : T -> bool.
+  Variable unit_of : T -> T.
+  Definition GOps : pops T :=
+    mk_pops T zero one deg div (fun r a b => sub r (mul a b)) gcddeg leadone (fun D X => mul (unit_of D) X).
 
   (* a == b (mod M) *)
   Definition pcong (M a b : T) : Prop := exists c, sub a b = mul c M.
@@ -102,6 +108,50 @@ Section Sound.
       + ring.
   Qed.
 
+  (* ------------------------------------------------------------ ratreconcheck and the 6-argument form *)
+  Hypothesis unit_inv : forall D, D <> zero -> exists v, mul v (unit_of D) = one.
+  Hypothesis unit_deg : forall D X, D <> zero -> deg (mul (unit_of D) X) = deg X.
+
+  Definition Poly_ratreconcheck_sound_stmt : Prop := forall P M dk N D, 0 <= dk < deg M ->
+    pratreconcheck_g GOps P M dk = Some (true, N, D) ->
+    pcong M N (mul D P) /\ deg N <= dk /\ D <> zero /\
+    exists N0 D0, pratrecon GOps P M dk = Some (true, N0, D0) /\ gcddeg N0 D0 <= 0 /\
+                  ((N = N0 /\ D = D0) \/ (N = mul (unit_of D0) N0 /\ D = mul (unit_of D0) D0)).
+  Lemma poly_ratreconcheck_sound : Poly_ratreconcheck_sound_stmt.
+  Proof.
+    intros P M dk N D Hdk. unfold pratreconcheck_g.
+    destruct (pratrecon GOps P M dk) as [[[pass N0] D0]|] eqn:E; [|discriminate].
+    cbn [pgcddeg pleadone pdivlead GOps].
+    destruct (Z.gtb_spec (gcddeg N0 D0) 0) as [G|G]; [discriminate|].
+    assert (S0 : pass = true -> pcong M N0 (mul D0 P) /\ deg N0 <= dk /\ D0 <> zero).
+    { intros ->. exact (poly_ratrecon_sound P M dk N0 D0 Hdk E). }
+    destruct (leadone D0).
+    - intros R; inversion R; subst. destruct (S0 eq_refl) as (C & L & NZ).
+      repeat split; auto. exists N, D. repeat split; auto.
+    - intros R; inversion R; subst. destruct (S0 eq_refl) as ([c C] & L & NZ).
+      split; [|split; [|split]].
+      + exists (mul (unit_of D0) c).
+        replace (sub (mul (unit_of D0) N0) (mul (mul (unit_of D0) D0) P))
+          with (mul (unit_of D0) (sub N0 (mul D0 P))) by ring.
+        rewrite C. ring.
+      + rewrite unit_deg by exact NZ. exact L.
+      + intros Z0. destruct (unit_inv D0 NZ) as [v Hv]. apply NZ.
+        assert (HD : D0 = mul v (mul (unit_of D0) D0)).
+        { transitivity (mul (mul v (unit_of D0)) D0); [rewrite Hv; ring|ring]. }
+        etransitivity; [exact HD|]. rewrite Z0. ring.
+      + exists N0, D0. repeat split; auto.
+  Qed.
+
+  Definition Poly_ratrecon6_sound_stmt : Prop := forall P M dk fr N D, 0 <= dk < deg M ->
+    pratrecon6_g GOps P M dk fr = Some (true, N, D) ->
+    pcong M N (mul D P) /\ deg N <= dk /\ D <> zero.
+  Lemma poly_ratrecon6_sound : Poly_ratrecon6_sound_stmt.
+  Proof.
+    intros P M dk fr N D Hdk. unfold pratrecon6_g. destruct fr.
+    - intros H. destruct (poly_ratreconcheck_sound P M dk N D Hdk H) as (C & L & NZ & _). auto.
+    - apply poly_ratrecon_sound; assumption.
+  Qed.
+
   (* ------------------------------------------------------------ termination (needs the division to be Euclidean) *)
   Hypothesis deg_rem : forall a b, b <> zero -> deg (sub a (mul (div a b) b)) < deg b.
   Hypothesis deg_nonneg : forall x, x <> zero -> 0 <= deg x.
@@ -141,31 +191,55 @@ Section Sound.
   Qed.
 End Sound.
 
-(* the statement with its hypotheses spelled out *)
+(* the statements with their hypotheses spelled out *)
 Definition Poly_ratrecon_sound : Prop :=
   forall (T : Type) (zero one : T) (add mul sub : T -> T -> T) (opp : T -> T),
     ring_theory zero one add mul sub opp (@eq T) ->
-    forall (deg : T -> Z) (div : T -> T -> T),
+    forall (deg : T -> Z) (div : T -> T -> T) (gcddeg : T -> T -> Z) (leadone : T -> bool) (unit_of : T -> T),
       deg zero = -1 ->
       (forall c x : T, deg (mul c x) < deg x -> mul c x = zero) ->
       forall (P M : T) (dk : Z) (N D : T), 0 <= dk < deg M ->
-        pratrecon (GOps T zero one mul sub deg div) P M dk = Some (true, N, D) ->
+        pratrecon (GOps T zero one mul sub deg div gcddeg leadone unit_of) P M dk = Some (true, N, D) ->
         (exists c, sub N (mul D P) = mul c M) /\ deg N <= dk /\ D <> zero.
 Lemma poly_ratrecon_sound_full : Poly_ratrecon_sound.
-Proof. exact poly_ratrecon_sound. Qed.
+Proof. intros T zero one add mul sub opp Rth deg div g l u Hz Hs. exact (poly_ratrecon_sound T zero one add mul sub opp Rth deg div Hz Hs g l u). Qed.
+
+(* ratreconcheck and ratrecon(N,D,P,M,dk,forcereduce): dividing by leadcoef(D) is multiplication by unit_of D *)
+Definition Poly_ratreconcheck_sound : Prop :=
+  forall (T : Type) (zero one : T) (add mul sub : T -> T -> T) (opp : T -> T),
+    ring_theory zero one add mul sub opp (@eq T) ->
+    forall (deg : T -> Z) (div : T -> T -> T) (gcddeg : T -> T -> Z) (leadone : T -> bool) (unit_of : T -> T),
+      deg zero = -1 ->
+      (forall c x : T, deg (mul c x) < deg x -> mul c x = zero) ->
+      (forall D : T, D <> zero -> exists v, mul v (unit_of D) = one) ->
+      (forall D X : T, D <> zero -> deg (mul (unit_of D) X) = deg X) ->
+      let Ops := GOps T zero one mul sub deg div gcddeg leadone unit_of in
+      forall (P M : T) (dk : Z) (N D : T), 0 <= dk < deg M ->
+        (pratreconcheck_g Ops P M dk = Some (true, N, D) ->
+           (exists c, sub N (mul D P) = mul c M) /\ deg N <= dk /\ D <> zero /\
+           exists N0 D0, pratrecon Ops P M dk = Some (true, N0, D0) /\ gcddeg N0 D0 <= 0 /\
+             ((N = N0 /\ D = D0) \/ (N = mul (unit_of D0) N0 /\ D = mul (unit_of D0) D0))) /\
+        (forall fr, pratrecon6_g Ops P M dk fr = Some (true, N, D) ->
+           (exists c, sub N (mul D P) = mul c M) /\ deg N <= dk /\ D <> zero).
+Lemma poly_ratreconcheck_sound_full : Poly_ratreconcheck_sound.
+Proof.
+  intros T zero one add mul sub opp Rth deg div g l u Hz Hs Hu Hd Ops P M dk N D Hdk. split.
+  - exact (poly_ratreconcheck_sound T zero one add mul sub opp Rth deg div Hz Hs g l u Hu Hd P M dk N D Hdk).
+  - intros fr. exact (poly_ratrecon6_sound T zero one add mul sub opp Rth deg div Hz Hs g l u Hu Hd P M dk fr N D Hdk).
+Qed.
 
 (* termination within the fuel deg P + deg M + 4 when `div` is a Euclidean quotient *)
 Definition Poly_ratrecon_total : Prop :=
   forall (T : Type) (zero one : T) (add mul sub : T -> T -> T) (opp : T -> T),
     ring_theory zero one add mul sub opp (@eq T) ->
-    forall (deg : T -> Z) (div : T -> T -> T),
+    forall (deg : T -> Z) (div : T -> T -> T) (gcddeg : T -> T -> Z) (leadone : T -> bool) (unit_of : T -> T),
       deg zero = -1 ->
       (forall a b : T, b <> zero -> deg (sub a (mul (div a b) b)) < deg b) ->
       (forall x : T, x <> zero -> 0 <= deg x) ->
       forall (P M : T) (dk : Z), 0 <= dk -> -1 <= deg M ->
-        pratrecon (GOps T zero one mul sub deg div) P M dk <> None.
+        pratrecon (GOps T zero one mul sub deg div gcddeg leadone unit_of) P M dk <> None.
 Lemma poly_ratrecon_total_full : Poly_ratrecon_total.
-Proof. intros T zero one add mul sub opp Rth deg div Hz Hr Hn. exact (poly_ratrecon_total T zero one mul sub deg div Hz Hr Hn). Qed.
+Proof. intros T zero one add mul sub opp Rth deg div g l u Hz Hr Hn. eapply poly_ratrecon_total; eauto. Qed.
 
 (* the hypotheses are satisfiable: Z with deg x = (if x = 0 then -1 else 0) *)
 Example poly_hyps_example :
